@@ -330,6 +330,10 @@ func ConvertToRESP(val lua.LValue) resp.Value {
 		if math.IsNaN(float) || math.IsInf(float, 0) {
 			return resp.FloatValue(float)
 		}
+		if float < -9223372036854775808 || float >= 9223372036854775808 {
+			// does not fit an integer reply: as for NaN and Inf
+			return resp.FloatValue(float)
+		}
 		return resp.IntegerValue(int(math.Floor(float)))
 	case lua.LTString:
 		return resp.StringValue(val.String())
